@@ -165,7 +165,7 @@ def extracted_demux(repo):
 
 class C18(Prop):
     id = "C18"
-    props_file = ["Props/C18.v", "Props/C18_Bridge.v"]
+    props_file = ["Props/C18.v", "Props/C18_Bridge.v", "Props/C18_Examples.v"]
     coq_imports = ["From ONL Require Import Base.Cmp Route.Demux Route.Hub Route.FatTree Route.Fib."]
     n_quick = 640
     n_thorough = 6000
